@@ -52,6 +52,11 @@ int main() {
 				// the value is read only when the address lies inside the root array
 				if(rel(b) >= 0 && rel(b) < root.n) { std::cout << " V=" << *b; } else { std::cout << " V=oob"; }
 				std::cout << '\n';
+			} else if(kw == "bprobe") {
+				if(dead) { continue; }
+				idx_t i = 0;
+				is >> i;
+				std::cout << "Q " << id << ' ' << step << " broadcasted i=" << i << " same=" << root.view->broadcast_same(i) << '\n';
 			} else if(kw == "end") {
 				std::cout << "E " << id << '\n';
 			}
